@@ -36,6 +36,12 @@ def random_cell(rng, kind, scale=12.0):
         return cell
     if kind == "rotated_ortho":     # an orthorhombic box described in a rotated frame: all angles 90 degrees, vectors not along x, y, z
         from vmon.oracle.geometry import random_rotation
+        r = int(rng.integers(4))
+        if r == 0:       # a quarter turn about z / the axes listed in another order (y, z, x): exact, every angle exactly 90 degrees
+            return [np.array([[0, a, 0], [-b, 0, 0], [0, 0, c]]), np.array([[0, a, 0], [0, 0, b], [c, 0, 0]])][int(rng.integers(2))]
+        if r == 1:       # the sqrt(2) x sqrt(2) setting of a tetragonal cell: whole-number vectors at 45 degrees to x and y
+            h = float(np.round(a / 1.5))
+            return np.array([[h, h, 0], [-h, h, 0], [0, 0, float(np.round(c))]])
         return np.diag([a, b, c]).dot(random_rotation(rng).T)
     if kind == "rotated":
         from vmon.oracle.geometry import random_rotation
